@@ -80,9 +80,14 @@ func Substitutions(b []byte, head, extra int, seed int64, boundaryOnly bool) []V
 	return out
 }
 
-// ASN1Variants removes / duplicates each top-level element of a DER SEQUENCE (no-op list if b is
-// not one).
+// ASN1Variants removes / duplicates each element of the DER SEQUENCE b and - recursively, up to depth
+// 3 - of every compound element nested in it, and empties every nested compound element (no-op list
+// if b is not a SEQUENCE). OCTET STRINGs that themselves hold a DER SEQUENCE are descended into too.
 func ASN1Variants(b []byte) []Variant {
+	return asn1Variants(b, "", 0)
+}
+
+func asn1Variants(b []byte, path string, depth int) []Variant {
 	var seq asn1.RawValue
 	rest, err := asn1.Unmarshal(b, &seq)
 	if err != nil || len(rest) != 0 || !seq.IsCompound {
@@ -99,10 +104,10 @@ func ASN1Variants(b []byte) []Variant {
 		elems = append(elems, e)
 		body = r
 	}
-	pack := func(es []asn1.RawValue) []byte {
+	packRaw := func(parts [][]byte) []byte {
 		var content []byte
-		for _, e := range es {
-			content = append(content, e.FullBytes...)
+		for _, e := range parts {
+			content = append(content, e...)
 		}
 		out, err := asn1.Marshal(asn1.RawValue{Class: seq.Class, Tag: seq.Tag, IsCompound: true, Bytes: content})
 		if err != nil {
@@ -110,15 +115,70 @@ func ASN1Variants(b []byte) []Variant {
 		}
 		return out
 	}
+	full := func() [][]byte {
+		ps := make([][]byte, len(elems))
+		for i, e := range elems {
+			ps[i] = e.FullBytes
+		}
+		return ps
+	}
 	var out []Variant
 	for i := range elems {
-		rm := append(append([]asn1.RawValue(nil), elems[:i]...), elems[i+1:]...)
-		if d := pack(rm); d != nil {
-			out = append(out, Variant{"asn1-remove", fmt.Sprintf("element %d of %d", i, len(elems)), d})
+		where := fmt.Sprintf("%selement %d of %d", path, i, len(elems))
+		ps := full()
+		rm := append(append([][]byte(nil), ps[:i]...), ps[i+1:]...)
+		if d := packRaw(rm); d != nil {
+			out = append(out, Variant{"asn1-remove", where, d})
 		}
-		dup := append(append(append([]asn1.RawValue(nil), elems[:i+1]...), elems[i]), elems[i+1:]...)
-		if d := pack(dup); d != nil {
-			out = append(out, Variant{"asn1-duplicate", fmt.Sprintf("element %d of %d", i, len(elems)), d})
+		dup := append(append(append([][]byte(nil), ps[:i+1]...), ps[i]), ps[i+1:]...)
+		if d := packRaw(dup); d != nil {
+			out = append(out, Variant{"asn1-duplicate", where, d})
+		}
+		if depth >= 3 {
+			continue
+		}
+		// nested structure: a compound element, or an OCTET STRING holding a SEQUENCE
+		e := elems[i]
+		var inner []byte
+		wrap := func(x []byte) []byte { return x }
+		if e.IsCompound {
+			inner = e.FullBytes
+		} else if e.Class == asn1.ClassUniversal && e.Tag == asn1.TagOctetString {
+			var probe asn1.RawValue
+			if r, err := asn1.Unmarshal(e.Bytes, &probe); err == nil && len(r) == 0 && probe.IsCompound {
+				inner = e.Bytes
+				wrap = func(x []byte) []byte {
+					o, err := asn1.Marshal(x)
+					if err != nil {
+						return nil
+					}
+					return o
+				}
+			}
+		}
+		if inner == nil {
+			continue
+		}
+		if e.IsCompound {
+			empty, err := asn1.Marshal(asn1.RawValue{Class: e.Class, Tag: e.Tag, IsCompound: true, Bytes: nil})
+			if err == nil {
+				ps2 := full()
+				ps2[i] = empty
+				if d := packRaw(ps2); d != nil {
+					out = append(out, Variant{"asn1-empty", where, d})
+				}
+			}
+		}
+		for _, v := range asn1Variants(inner, where+" / ", depth+1) {
+			w := wrap(v.Data)
+			if w == nil {
+				continue
+			}
+			ps2 := full()
+			ps2[i] = w
+			if d := packRaw(ps2); d != nil {
+				out = append(out, Variant{v.Kind + "-nested", v.Desc, d})
+			}
 		}
 	}
 	return out
